@@ -34,6 +34,27 @@ def main():
         print("unknown property", args.pid)
         return 2
     ctx = framework.Ctx(args.pid, tier, seed)
+
+    # watchdog: a check that cannot finish is a check that could not run (exit 2), never a verdict
+    import multiprocessing
+    import signal
+
+    def on_alarm(signum, frame):
+        print(f"HARNESS-ERROR: check {args.pid} exceeded its time budget; stopped")
+        sys.stdout.flush()
+        for ch in multiprocessing.active_children():
+            try:
+                ch.kill()
+            except Exception:  # noqa
+                pass
+        os._exit(2)
+
+    try:
+        budget = int(os.environ.get("VERIF_BUDGET_S", "1800" if tier == "quick" else "21600"))
+    except ValueError:
+        budget = 1800
+    signal.signal(signal.SIGALRM, on_alarm)
+    signal.alarm(budget)
     try:
         ctx.lean_stage()
         registry.CHECKS[args.pid](ctx)
